@@ -7,6 +7,7 @@ EXPLANATION = (
     "per-value transform order (clip, adjust, threshold) applied exactly once per data path including the chunked path; merge_into is "
     "decided by exhaustive symbolic case analysis over all overlapping order types and zero flags (pieces sorted, contiguous, cover the "
     "union, each carries the sum of the inputs covering it); the gap filler only inserts {last_end, next.start, 0.0} and passes inputs through.")
+EXPLANATION += " Since the rules were generalised: FillValues::next is evaluated on every order type of (last_end, next.start, next.end, expected_end) x held/polled/expected shapes; the merge window's slot range, hold-back conditions, extent and advance are decided as functions of (window start, value start/end, window size), its accumulator is f64 and zero runs are dropped (the re-encoding arithmetic itself stays undecided)."
 UNDECIDED = "the 50,000-base window accumulator ValueIter::next (per-base sums, run-length re-encoding across window boundaries, held-back last value): arithmetic over runtime data."
 ASSUMPTIONS = [K.A_PRED, "merge_into is only called with truly overlapping non-empty values (its callers check both ends)"]
 OBLIGATIONS = [K.MERGE_QUERY, K.LOWERCASE, K.OUTPUT_TYPE, K.TRANSFORM, K.MERGE_INTO, K.FILL, K.WIG_KEEP]
